@@ -3,6 +3,7 @@
 package main
 
 import (
+	"fmt"
 	"github.com/tikv/client-go/v2/verifx/hub"
 	"github.com/tikv/client-go/v2/verifx/vx"
 )
@@ -86,9 +87,9 @@ func c02Scenario(s shape, i int, after bool, extra int, r *vx.Rand) {
 }
 
 func runC02() {
-	nShapes := 400
+	nShapes := 330
 	if run.Thorough() {
-		nShapes = 6000
+		nShapes = 2600
 	}
 	nShapes = scaled(nShapes)
 	for n := 0; n < nShapes; n++ {
@@ -98,11 +99,21 @@ func runC02() {
 		rec.Count("c02:shapes")
 		for i := 0; i < cnt; i++ {
 			for _, after := range []bool{false, true} {
-				extra := 0
-				if run.Thorough() && r.Chance(50) {
-					extra = 1 + r.Intn(3)
+				// the plain crash point; a region split at that same instant for ALL indexes (thorough: every shape, quick:
+				// every fourth); thorough: plus a concurrent reader or a conflicting writer
+				extras := []int{0}
+				if run.Thorough() || n%4 == 0 {
+					extras = append(extras, 3)
 				}
-				c02Scenario(s, i, after, extra, r.Fork())
+				if run.Thorough() {
+					extras = append(extras, 1+r.Intn(2))
+				}
+				for _, extra := range extras {
+					c02Scenario(s, i, after, extra, r.Fork())
+					if extra != 0 {
+						rec.Count(fmt.Sprintf("c02:extra-%d", extra))
+					}
+				}
 			}
 		}
 		// transactions with a pre-history (failed statements, lost rollbacks, a resolver that met them before): c02hist.go
